@@ -19,6 +19,7 @@ type zUser struct {
 	Name string
 	Team int64
 	Age  *int64
+	City string
 }
 
 type zStmt struct {
@@ -303,6 +304,8 @@ func zColumn(r *zUser, col string) (interface{}, bool) {
 		return r.Name, true
 	case "team":
 		return r.Team, true
+	case "city":
+		return r.City, true
 	case "age":
 		if r.Age == nil {
 			return nil, true
